@@ -189,7 +189,7 @@ def forms(cpu):
     add('djnz {0}', [Rel(2, -128, 127)], rel(0x10))
     add('jp (hl)', [], [0xe9])
     # restart addresses: 00h, 08h ... 38h (other operand values: the manual is silent -> only 40h as out of range)
-    add('rst {0}', [Choice([('%d' % (8 * i), i) for i in range(8)] + [('%02xh' % (8 * i), i) for i in range(8)], bad=['64'], name='rst')],
+    add('rst {0}', [Choice([('%d' % (8 * i), i) for i in range(8)] + [('%02xh' % (8 * i), i) for i in range(8)], bad=['64', '9', '1', '7', '39h', '63', '12', '3fh'], name='rst')],
         lambda v, pc: [0xc7 | v[0] << 3])
     # ---- I/O
     add('in a,({0})', [P8()], lambda v, pc: [0xdb, v[0] & 0xff])
